@@ -632,4 +632,5 @@ Fixpoint has_stale_fuel (fuel : nat) (st : dstate) (path : list N) (v : val) : b
       | _ => false
       end
   end.
-Definition has_stale (st : dstate) (v : val) : bool := has_stale_fuel (N.to_nat 100000) st [] v.
+Definition stale_fuel : nat := N.to_nat 100000.       (* a constant: built once *)
+Definition has_stale (st : dstate) (v : val) : bool := has_stale_fuel stale_fuel st [] v.
